@@ -63,12 +63,15 @@ func NewChecker(ctx context.Context, metrics *Store, threshold float64) *Checker
 func (mc *Checker) CheckPeers(peers []peer.ID) error {
 	for _, name := range mc.metrics.MetricNames() {
 		for _, peer := range peers {
-			for _, metric := range mc.metrics.PeerMetricAll(name, peer) {
-				if mc.FailedMetric(metric.Name, peer) {
-					err := mc.alert(peer, metric.Name)
-					if err != nil {
-						return err
-					}
+			// One failure decision per (name, peer), and only
+			// when we hold metrics for it.
+			if mc.metrics.PeerLatest(name, peer) == nil {
+				continue
+			}
+			if mc.FailedMetric(name, peer) {
+				err := mc.alert(peer, name)
+				if err != nil {
+					return err
 				}
 			}
 		}
@@ -107,17 +110,6 @@ func (mc *Checker) alert(pid peer.ID, metricName string) error {
 		}
 	}
 
-	// If above threshold, remove all metrics for that peer
-	// and clean up failedPeers when no failed metrics are left.
-	if failedMetrics[metricName] >= MaxAlertThreshold {
-		mc.metrics.RemovePeerMetrics(pid, metricName)
-		delete(failedMetrics, metricName)
-		if len(mc.failedPeers[pid]) == 0 {
-			delete(mc.failedPeers, pid)
-		}
-		return nil
-	}
-
 	failedMetrics[metricName]++
 
 	alrt := &api.Alert{
@@ -133,6 +125,17 @@ func (mc *Checker) alert(pid peer.ID, metricName string) error {
 		)
 	default:
 		return ErrAlertChannelFull
+	}
+
+	// Once the threshold is reached, forget the metrics for that peer (a
+	// renewed metric starts afresh) and clean up failedPeers when no
+	// failed metrics are left.
+	if failedMetrics[metricName] >= MaxAlertThreshold {
+		mc.metrics.RemovePeerMetrics(pid, metricName)
+		delete(failedMetrics, metricName)
+		if len(mc.failedPeers[pid]) == 0 {
+			delete(mc.failedPeers, pid)
+		}
 	}
 	return nil
 }
